@@ -185,6 +185,28 @@ def startTickets : List Ev → List Nat
   | .start t :: rest => t :: startTickets rest
   | _ :: rest => startTickets rest
 
+def finTickets : List Ev → List Nat
+  | [] => []
+  | .fin t :: rest => t :: finTickets rest
+  | _ :: rest => finTickets rest
+
+/-- the operations of the playback loop and of the server side (no new submissions, stops or edits) -/
+def isLoopOp : Op → Bool
+  | .take | .send | .finish _ => true
+  | _ => false
+
+/-- variant: work left for the playback loop — three units per queued flow (take, send, finish), two for a
+    replay that has been taken, one for a replay whose request has been sent -/
+def variant (s : St) : Nat :=
+  3 * s.queue.length +
+    (match s.inflight with
+     | none => 0
+     | some (_, .taken) => 2
+     | some (_, .sent) => 1)
+
+/-- nothing left to replay -/
+def quiescent (s : St) : Bool := s.inflight.isNone && s.queue.isEmpty
+
 def replayable (a : Attr) : Bool :=
   !a.live && !a.intercepted && a.isHttp && a.hasReq && a.hasContent && !a.ws
 
